@@ -83,7 +83,7 @@ Proof.
   - constructor; [|constructor]. vm_compute. reflexivity.
 Qed.
 
-(* ---------------------------------------------------------------- F05c: reconnect, re-add, start *)
+(* ---------------------------------------------------------------- reconnect, re-add, start (F05c repaired) *)
 Definition ex_reconnect_history : list ev :=
   ex_session ++ [ENew 100; EAddVar 0 1 1; EAddConfig 0; EStart 0;
                  EPacket 1 [6; 1; 0];      (* block created *)
@@ -92,11 +92,26 @@ Definition ex_reconnect_history : list ev :=
   ex_session ++                              (* new session: the device has been reset, all blocks are gone *)
   [EAddConfig 0].                            (* accepted again, new id 2 *)
 
-Example ex_reconnect_start_sends_no_create :
+(* the reset acknowledgement of the second session cleared the flags (with callbacks), so start()
+   creates the block again (the unrepaired code sent only START for id 2) *)
+Example ex_reconnect_recreates :
   let s := final init_st ex_reconnect_history in
   s_blocks s = [0%nat] /\ c_valid (get s 0) = true /\ c_id (get s 0) = 2 /\
-  start s 0 = (s, [OWire 5 1 [3; 2; 10] [3; 2]], None).
+  flags (get s 0) = (false, false) /\
+  start s 0 = (put s 0 (set_pending (get s 0) 1), [OWire 5 1 [6; 2; 17; 45; 1] [6; 2]], None) /\
+  nth 11 (snd (run init_st ex_reconnect_history)) ([], None)
+    = ([OCb cb_started 0 [0]; OCb cb_added 0 [0]; OWire 5 0 [3] [3]], None).
 Proof. vm_compute. repeat split; reflexivity. Qed.
+
+(* protocol V1: 15 one-byte variables are accepted and sent in ONE message of 32 bytes *)
+Example ex_v1_32_bytes :
+  let evs := [ERefresh false; EPacket 1 [5; 0; 0]; ESetToc ex_toc; ENew 100] ++
+             ex_bytes [0;1;2;3;4;5;6;7;8;9;10;11;0;1;2] ++ [EAddConfig 0] in
+  match snd (fst (start (final init_st (map (fun e => match e with ESetToc _ => ESetToc (map (fun k => mkT k k 1) [0;1;2;3;4;5;6;7;8;9;10;11]) | _ => e end) evs)) 0)) with
+  | [OWire _ _ m _] => length m = 32%nat
+  | _ => False
+  end.
+Proof. vm_compute. reflexivity. Qed.
 
 (* SyncLogger: samples queued when the link is lost are not yielded *)
 Example ex_sync_session :
